@@ -464,15 +464,215 @@ class Normalizer(object):
             return
         ctx = dict(fi=fi, names=self._all_names(node), stack=[fi])
         node.body = self.inline_block(node.body, ctx, 0)
+        self.canonical_statements(node, fi, ctx)
         changed = True
         rounds = 0
         while changed and rounds < 20:
             rounds += 1
             changed = self.split_tuple_assigns(node)
             changed |= self.copy_prop(node)
+            changed |= self.splice_stars(node)
+            changed |= self.canonical_statements(node, fi, ctx)
         if not node.body:
             node.body = [ast.Pass()]
         ast.fix_missing_locations(node)
+
+    # -- N5: statement idioms with one canonical spelling ---------------------
+    def canonical_statements(self, fnode, fi, ctx):
+        """L.acquire(); try: B finally: L.release()   ->  with L: B
+        with suppress(E...): B                        ->  try: B except E: pass
+        for x in iter(f, S): B                        ->  while True:
+                                                            x = f()
+                                                            if x == S: break
+                                                            B"""
+        changed = [False]
+        db = self.db
+
+        def same(a, b):
+            return ast.dump(a) == ast.dump(b)
+
+        def lock_call(st, name):
+            if isinstance(st, ast.Expr) and isinstance(st.value, ast.Call) \
+                    and isinstance(st.value.func, ast.Attribute) and \
+                    st.value.func.attr == name and not st.value.args and \
+                    not st.value.keywords and not has_call(
+                        st.value.func.value):
+                return st.value.func.value
+            return None
+
+        def is_suppress(e):
+            if not isinstance(e, ast.Call) or e.keywords or not e.args:
+                return False
+            try:
+                ent = db.resolve_dotted(fi.module, e.func)
+            except AnalysisError:
+                return False
+            return getattr(ent, 'dotted', None) == 'contextlib.suppress'
+
+        def is_iter2(e):
+            return isinstance(e, ast.Call) and isinstance(e.func, ast.Name) \
+                and e.func.id == 'iter' and len(e.args) == 2 and \
+                not e.keywords and 'iter' not in self._locals(ctx) and \
+                not has_call(e.args[0]) and not has_call(e.args[1])
+
+        def block(stmts):
+            out = []
+            i = 0
+            while i < len(stmts):
+                st = stmts[i]
+                nxt = stmts[i + 1] if i + 1 < len(stmts) else None
+                lk = lock_call(st, 'acquire')
+                if lk is not None and isinstance(nxt, ast.Try) and \
+                        not nxt.handlers and not nxt.orelse and \
+                        len(nxt.finalbody) == 1:
+                    rl = lock_call(nxt.finalbody[0], 'release')
+                    if rl is not None and same(lk, rl):
+                        w = ast.With(items=[ast.withitem(
+                            context_expr=lk, optional_vars=None)],
+                            body=nxt.body)
+                        out.append(ast.copy_location(w, st))
+                        changed[0] = True
+                        i += 2
+                        continue
+                if isinstance(st, ast.With) and len(st.items) == 1 and \
+                        st.items[0].optional_vars is None and \
+                        is_suppress(st.items[0].context_expr):
+                    args = st.items[0].context_expr.args
+                    typ = args[0] if len(args) == 1 else ast.Tuple(
+                        elts=list(args), ctx=ast.Load())
+                    t = ast.Try(body=st.body, handlers=[ast.copy_location(
+                        ast.ExceptHandler(type=typ, name=None, body=[
+                            ast.copy_location(ast.Pass(), st)]), st)],
+                        orelse=[], finalbody=[])
+                    out.append(ast.copy_location(t, st))
+                    changed[0] = True
+                    i += 1
+                    continue
+                if isinstance(st, ast.For) and not st.orelse and \
+                        is_iter2(st.iter) and not contains(
+                            st.body, (ast.Continue,)):
+                    f, sent = st.iter.args
+                    call = ast.copy_location(ast.Call(func=f, args=[],
+                                                      keywords=[]), st.iter)
+                    tgt = st.target
+                    fetch = ast.copy_location(ast.Assign(targets=[tgt],
+                                                         value=call), st)
+                    tload = copy.deepcopy(tgt)
+                    for x in ast.walk(tload):
+                        if hasattr(x, 'ctx'):
+                            x.ctx = ast.Load()
+                    stop = ast.copy_location(ast.If(test=ast.Compare(
+                        left=tload, ops=[ast.Eq()], comparators=[sent]),
+                        body=[ast.copy_location(ast.Break(), st)],
+                        orelse=[]), st)
+                    body = [b for b in st.body if not isinstance(b, ast.Pass)]
+                    w = ast.While(test=ast.Constant(value=True),
+                                  body=[fetch, stop] + body, orelse=[])
+                    out.append(ast.copy_location(w, st))
+                    changed[0] = True
+                    i += 1
+                    continue
+                out.append(st)
+                i += 1
+            for st in out:
+                if isinstance(st, (ast.FunctionDef, ast.AsyncFunctionDef,
+                                   ast.ClassDef)):
+                    continue
+                for owner, f in sub_blocks(st):
+                    setattr(owner, f, block(getattr(owner, f)))
+            return out
+        fnode.body = block(fnode.body)
+        if changed[0]:
+            ast.fix_missing_locations(fnode)
+            self.stats['idioms'] = self.stats.get('idioms', 0) + 1
+        return changed[0]
+
+    # -- N4: argument lists ---------------------------------------------------
+    def splice_stars(self, fnode):
+        """f(*(a, b)) is f(a, b); f(*(A if c else B)) with literal A, B is
+        f(*A) if c else f(*B) when nothing with an effect is evaluated before
+        c; as a statement, that is `if c: f(*A) / else: f(*B)`."""
+        changed = [False]
+        me = self
+
+        def pure_prefix(call, star):
+            # everything evaluated before the starred argument
+            parts = [call.func]
+            for a in call.args:
+                if a is star:
+                    break
+                parts.append(a)
+            return not any(has_call(x) for x in parts)
+
+        class T(ast.NodeTransformer):
+            def visit_FunctionDef(self, n):
+                return n if n is not fnode else self.generic_visit(n)
+            visit_AsyncFunctionDef = visit_FunctionDef
+
+            def visit_Lambda(self, n):
+                return n
+
+            def visit_Call(self, n):
+                self.generic_visit(n)
+                for i, a in enumerate(n.args):
+                    if not isinstance(a, ast.Starred):
+                        continue
+                    v = a.value
+                    if isinstance(v, (ast.Tuple, ast.List)) and not any(
+                            isinstance(x, ast.Starred) for x in v.elts):
+                        n.args[i:i + 1] = v.elts
+                        changed[0] = True
+                        return self.visit_Call(n)
+                    if isinstance(v, ast.IfExp) and all(
+                            isinstance(x, (ast.Tuple, ast.List))
+                            for x in (v.body, v.orelse)) and \
+                            pure_prefix(n, a) and not has_call(v.test):
+                        def arm(x):
+                            c = copy.deepcopy(n)
+                            c.args[i] = ast.Starred(value=copy.deepcopy(x),
+                                                    ctx=ast.Load())
+                            return self.visit_Call(c)
+                        changed[0] = True
+                        return ast.copy_location(ast.IfExp(
+                            test=v.test, body=arm(v.body),
+                            orelse=arm(v.orelse)), n)
+                return n
+        T().visit(fnode)
+
+        # an expression statement that is a conditional expression of calls
+        def blocks(owner):
+            for f in BLOCK_FIELDS:
+                b = getattr(owner, f, None)
+                if isinstance(b, list) and b and isinstance(b[0], ast.stmt):
+                    yield owner, f
+            for h in getattr(owner, 'handlers', []) or []:
+                yield h, 'body'
+        work = [fnode]
+        while work:
+            o = work.pop()
+            for owner, f in blocks(o):
+                out = []
+                for st in getattr(owner, f):
+                    if isinstance(st, ast.Expr) and isinstance(
+                            st.value, ast.IfExp) and all(
+                                isinstance(x, ast.Call)
+                                for x in (st.value.body, st.value.orelse)):
+                        v = st.value
+                        st = ast.copy_location(ast.If(
+                            test=v.test,
+                            body=[ast.copy_location(ast.Expr(value=v.body),
+                                                    st)],
+                            orelse=[ast.copy_location(
+                                ast.Expr(value=v.orelse), st)]), st)
+                        changed[0] = True
+                    out.append(st)
+                    if not isinstance(st, (ast.FunctionDef, ast.ClassDef,
+                                           ast.AsyncFunctionDef)):
+                        work.append(st)
+                setattr(owner, f, out)
+        if changed[0]:
+            self.stats['stars'] = self.stats.get('stars', 0) + 1
+        return changed[0]
 
     @staticmethod
     def _all_names(fnode):
@@ -549,6 +749,37 @@ class Normalizer(object):
             return None
         return target, recv
 
+    def resolve_prop(self, node, ctx):
+        """`self.<p>` read in a method, p a property of the class that is
+        not a known unit and that no subclass rebinds: (getter, self)."""
+        fi = ctx['fi']
+        db = self.db
+        if not (isinstance(node, ast.Attribute) and isinstance(
+                node.ctx, ast.Load) and isinstance(node.value, ast.Name)):
+            return None
+        if fi.cls is None or not fi.params or fi.kind not in (
+                'instance', 'property') or node.value.id != fi.params[0]:
+            return None
+        if node.value.id in ctx.get('rebound_self', ()):
+            return None
+        ad = db.find_attr(fi.cls, node.attr)
+        if ad is None or ad.kind != 'def' or ad.value.kind != 'property':
+            return None
+        target = ad.value
+        if len([d for d in ad.owner.attrs.get(node.attr, [])]) != 1:
+            return None
+        for sub in db.subclasses(fi.cls):
+            if node.attr in sub.attrs:
+                return None
+        if self.is_known(target) or target.module is not fi.module:
+            return None
+        if any(t is target for t in ctx['stack']) or target is fi:
+            return None
+        exp = ctx.setdefault('expanded', {})
+        if exp.get(id(target), 0) > 6:
+            return None
+        return target, node.value
+
     def _locals(self, ctx):
         key = '_locals'
         if key not in ctx:
@@ -606,7 +837,8 @@ class Normalizer(object):
         if contains(node.body, (ast.Global, ast.Nonlocal)):
             raise NotInlinable('global statement')
         if any(not (isinstance(d, ast.Name) and d.id in (
-                'staticmethod', 'classmethod')) for d in node.decorator_list):
+                'staticmethod', 'classmethod', 'property'))
+               for d in node.decorator_list):
             raise NotInlinable('decorated helper')
         bound, allp = self.bind_args(target, recv, call)
         body = copy.deepcopy(node.body)
@@ -753,7 +985,12 @@ class Normalizer(object):
 
     def inline_call(self, call, st, ctx, depth, value_used):
         """-> (prefix statements, replacement expression or None)."""
-        r = self.resolve_call(call, ctx)
+        if isinstance(call, ast.Attribute):
+            r = self.resolve_prop(call, ctx)
+            call = ast.copy_location(ast.Call(func=call, args=[],
+                                              keywords=[]), call)
+        else:
+            r = self.resolve_call(call, ctx)
         if r is None:
             return None
         target, recv = r
@@ -839,6 +1076,11 @@ class Normalizer(object):
                                                    for x in earlier))
                                 break
                         earlier.append(n)
+                    elif isinstance(n, ast.Attribute) and \
+                            id(n) not in condpos and \
+                            self.resolve_prop(n, ctx) is not None:
+                        found = (n, h, bool(earlier))
+                        break
                 if found:
                     break
                 if any(isinstance(n, ast.Call) for n in order):
